@@ -377,14 +377,18 @@ class Client(base_client.BaseClient):
         if not self.connected:
             return
         namespace = namespace or '/'
-        self._trigger_event('disconnect', namespace,
-                            self.reason.SERVER_DISCONNECT)
-        self._trigger_event('__disconnect_final', namespace)
-        if namespace in self.namespaces:
-            del self.namespaces[namespace]
-        if not self.namespaces:
-            self.connected = False
-            self.eio.disconnect(abort=True)
+        try:
+            self._trigger_event('disconnect', namespace,
+                                self.reason.SERVER_DISCONNECT)
+        finally:
+            # a failing disconnect handler must not keep the namespace
+            # listed as connected
+            self._trigger_event('__disconnect_final', namespace)
+            if namespace in self.namespaces:
+                del self.namespaces[namespace]
+            if not self.namespaces:
+                self.connected = False
+                self.eio.disconnect(abort=True)
 
     def _handle_event(self, namespace, id, data):
         namespace = namespace or '/'
@@ -549,9 +553,15 @@ class Client(base_client.BaseClient):
         self.logger.info('Engine.IO connection dropped')
         self._transport_ended = True
         will_reconnect = self.reconnection and self.eio.state == 'connected'
+        error = None
         if self.connected:
             for n in self.namespaces:
-                self._trigger_event('disconnect', n, reason)
+                try:
+                    self._trigger_event('disconnect', n, reason)
+                except Exception as exc:
+                    # a failing disconnect handler must not prevent the
+                    # notification of the other namespaces and the clean up
+                    error = error or exc
                 if not will_reconnect:
                     self._trigger_event('__disconnect_final', n)
             self.connected = False
@@ -562,6 +572,8 @@ class Client(base_client.BaseClient):
         if will_reconnect and not self._reconnect_task:
             self._reconnect_task = self.start_background_task(
                 self._handle_reconnect)
+        if error is not None:
+            raise error
 
     def _engineio_client_class(self):
         return engineio.Client
